@@ -8,8 +8,12 @@ CFG_IP = "10.9.0.1"
 MAXN = 8
 
 
+NREPL = 2       # indexes 8, 9: the machines that REPLACE nodes 2 and 3 (same name and port, new address)
+
+
 def _machine(i):
-    # nodes 6 and 7 run on the machines of nodes 0 and 1 (same fqdn and ip), on ports of their own
+    # nodes 6 and 7 run on the machines of nodes 0 and 1 (same fqdn and ip), on ports of their own;
+    # nodes 8 and 9 carry the names of nodes 2 and 3
     return i - 6 if i >= 6 else i
 
 
@@ -19,16 +23,20 @@ def fqdn(i):
 
 
 def ip(i):
+    if i >= MAXN:
+        return "10.9.2.%d" % (_machine(i) + 1)
     return "10.9.1.%d" % (_machine(i) + 1)
 
 
 def port(i):
+    if i >= MAXN:
+        return port(i - 6)
     if i >= 6:
         return 11400 + i
     return 11211 if i % 3 else 11300 + i
 
 
-NODE_INDEX = {(fqdn(i), port(i)): i for i in range(MAXN)}
+NODE_INDEX = {(fqdn(i), ip(i), port(i)): i for i in range(MAXN + NREPL)}
 
 
 class C19(Prop):
@@ -61,9 +69,10 @@ class C19(Prop):
     def gen(self, rng, idx, tier):
         nodes = [{"id": 0, "addrs": [[CFG_IP, 11211]], "opts": {}}]
         resolver = {CFG_HOST: [["inet", CFG_IP]]}
-        for i in range(MAXN):
+        for i in range(MAXN + NREPL):
             nodes.append({"id": i + 1, "addrs": [[ip(i), port(i)]]})
-            resolver[fqdn(i)] = [["inet", ip(i)]]
+            if i < MAXN:
+                resolver[fqdn(i)] = [["inet", ip(i)]]
         use_vpc = rng.random() < 0.5
         # use_vpc as configuration files deliver it: the bool, or the integers 1 / 0
         ck = {"use_vpc": (use_vpc if rng.random() < 0.7 else int(use_vpc)), "default_noreply": False, "timeout": 1,
@@ -133,9 +142,18 @@ class C19(Prop):
                     # the machine is repaired before it can be advertised again
                     steps.append({"t": "node", "id": victim + 1, "health": "up"})
             for _ in range(rng.randint(1, 4)):
-                kind = rng.choice(["grow", "shrink", "shrink", "replace", "same", "error"])
-                if kind == "grow":
-                    new = sorted(set(cur) | set(rng.sample(range(MAXN), rng.randint(1, 2))))[:6]
+                kind = rng.choice(["grow", "shrink", "shrink", "replace", "same", "error", "machine"])
+                swap = [i for i in cur if _machine(i) in (2, 3) and (i >= MAXN or i < 6)]
+                if kind == "machine" and swap:
+                    # a node is replaced by a new machine under the SAME name and port: only its address changes
+                    # (DNS follows); connections to the old machine are connections to a replaced node
+                    i = rng.choice(swap)
+                    j = i + 6 if i < MAXN else i - 6
+                    new = sorted(j if x == i else x for x in cur)
+                elif kind == "grow":
+                    have = {_machine(x) for x in cur if x >= MAXN}
+                    add = [x for x in rng.sample(range(MAXN), rng.randint(1, 2)) if x not in have]
+                    new = sorted(set(cur) | set(add))[:6]
                 elif kind == "shrink" and len(cur) > 1:
                     new = sorted(rng.sample(cur, rng.randint(1, len(cur) - 1)))
                 elif kind == "replace":
@@ -170,7 +188,7 @@ class C19(Prop):
                 cl = st["cluster"]
         if not isinstance(cl, dict):
             return None
-        return [NODE_INDEX[(n[0], int(n[2]))] for n in cl["nodes"]]
+        return [NODE_INDEX[(n[0], n[1], int(n[2]))] for n in cl["nodes"]]
 
     def judge(self, scn, res):
         out = []
@@ -250,7 +268,7 @@ class C19(Prop):
                 continue      # an advertised node is really down: its connection error is the expected outcome
             if rec.outcome == "raise":
                 out.append(viol("routed-call-raised", rec, disc=type(rec.exc).__name__, exc=type(rec.exc).__name__,
-                                msg=str(rec.exc)[:100], advertised=sorted(names)))
+                                msg=engine._exc_text(rec.exc)[:100], advertised=sorted(names)))
                 continue
             args, kwargs = res.extra["args"][rec.step]
             a0 = args[0]
